@@ -62,6 +62,31 @@ var propC07 = regHistory("C07", "history", profCollide, func() []hOracle { retur
 
 func TestProp_C07_history(t *testing.T) { propC07.Check(t) }
 
+// C07 on the single-file store with reopen steps: the constraints are the
+// reloaded ones
+var profCollidePersist = func() *hProfile {
+	p := *profCollide
+	p.name = "collide-persist"
+	p.weights = map[string]int{}
+	for k, v := range profCollide.weights {
+		p.weights[k] = v
+	}
+	p.weights["reopen"] = 6
+	return &p
+}()
+
+var propC07Persist = Register(&Prop{ID: "C07", Sub: "persist",
+	Live: liveHistoryOn(openFile, profCollidePersist, func() []hOracle { return []hOracle{&oracleUnique{}} }, 8, 24, func(r *hRun) bool {
+		o := r.oracles[0].(*oracleUnique)
+		return o.rejections >= 1 && o.reopens >= 1
+	}),
+	Run: runHistoryOn(openFile, func() []hOracle { return []hOracle{&oracleUnique{}} }, func(r *hRun) bool {
+		o := r.oracles[0].(*oracleUnique)
+		return o.rejections >= 1 && o.reopens >= 1
+	})})
+
+func TestProp_C07_persist(t *testing.T) { propC07Persist.Check(t) }
+
 // C15
 var propC15 = regHistory("C15", "history", profIndex, func() []hOracle { return []hOracle{&oracleIndex{}} }, 8, 30, func(r *hRun) bool {
 	o := r.oracles[0].(*oracleIndex)
